@@ -36,6 +36,11 @@ pub struct Case {
     pub hist: History,
     /// message IDs / signing time base
     pub salt: u16,
+    /// leave the empty RRset objects of the known finding `empty-rrset-left-after-delete-rr` in
+    /// the implementation between messages (false: the harness clears them after each message so
+    /// that the rest of the history runs from the RFC state)
+    #[serde(default)]
+    pub keep_ghosts: bool,
 }
 
 #[derive(Clone, Copy, PartialEq, Eq)]
@@ -172,7 +177,12 @@ fn subsets(max: usize) -> Vec<Quirks> {
 
 /// smallest set of known deviating rules that reproduces the observation exactly
 pub fn explain(model: &Zone, msg: &UMsg, applied: &Applied, before: &Zone, after: &Zone) -> Option<Quirks> {
-    subsets(5).into_iter().find(|qs| judge(&step(model, msg, qs).outcomes, applied, before, after).is_ok())
+    explain_g(model, &BTreeSet::new(), msg, applied, before, after)
+}
+
+/// `explain` for an implementation that entered the message holding the empty RRset objects `ghosts`
+pub fn explain_g(model: &Zone, ghosts: &BTreeSet<(Labels, u16)>, msg: &UMsg, applied: &Applied, before: &Zone, after: &Zone) -> Option<Quirks> {
+    subsets(5).into_iter().find(|qs| judge(&step_g(model, ghosts, msg, qs).outcomes, applied, before, after).is_ok())
 }
 
 /// root cause that wrecks the zone so that the history cannot continue behind it: "delete all
@@ -254,6 +264,12 @@ pub fn run_history(c: &Case, mode: Mode, rec: &mut Rec) -> CaseResult {
             rec.class(updates::row_label(r, true));
         }
         let before = snapshot(&h);
+        for r in &msg.prereqs {
+            let n = canon::lower(&r.name);
+            if before.ghosts.iter().any(|g| g.0 == n && (r.rtype == T_ANY || g.1 == r.rtype)) {
+                rec.class("prereq-on-emptied-rrset-object");
+            }
+        }
         let applied = match mode {
             Mode::Real => apply_signed(&h, c.salt.wrapping_add(i as u16), &origin, msg, &key, now0 + i as u64),
             Mode::Direct => apply_direct(&h, msg),
@@ -303,7 +319,7 @@ pub fn run_history(c: &Case, mode: Mode, rec: &mut Rec) -> CaseResult {
             }
             Err(dev) => {
                 let ctx = format!("message #{i} {} on zone {{ {}}}: {}", msg.show(), model.show(), dev.msg);
-                match explain(&model, msg, &applied, &before.zone, &after.zone) {
+                match explain_g(&model, &before.ghosts, msg, &applied, &before.zone, &after.zone) {
                     Some(qs) => {
                         if rec.strict {
                             return Err(Fail::new(qs.iter().next().unwrap().sig(), ctx));
@@ -379,7 +395,11 @@ pub fn run_history(c: &Case, mode: Mode, rec: &mut Rec) -> CaseResult {
             deferred.push((sig, ctx));
         }
         if !after.ghosts.is_empty() {
-            remove_ghosts(&h);
+            if c.keep_ghosts {
+                rec.class("ghosts-carried-into-next-message");
+            } else {
+                remove_ghosts(&h);
+            }
         }
         // continue from the implementation's state (equal to the model's unless a finding was recorded)
         for k in before.zone.masked().keys().chain(after.zone.masked().keys()) {
@@ -432,7 +452,7 @@ pub fn known_sigs(prop: &str) -> Vec<String> {
 
 fn case_strategy(tier: Tier) -> impl Strategy<Value = Case> {
     let _ = tier;
-    (updates::history(6, true), any::<u16>()).prop_map(|(hist, salt)| Case { hist, salt })
+    (updates::history(6, true), any::<u16>(), any::<bool>()).prop_map(|(hist, salt, keep_ghosts)| Case { hist, salt, keep_ghosts })
 }
 
 pub fn check() -> Option<Check> {
@@ -441,7 +461,7 @@ pub fn check() -> Option<Check> {
     Some(Check {
         id: "C12",
         level: "exploration",
-        rule: "histories of 1..6 UPDATE messages (0..3 prerequisite RRs, 0..5 update RRs each) over 14 owner names (apex in two spellings, hosts, case variant, wildcard, child, delegation point and a name below it, 4 out-of-zone names) x class {zone, ANY, NONE, CH} x type {A, TXT, NS, CNAME, SOA, ANY, AXFR} x ttl {0, >0} x rdata {empty, 3 values per type; SOA serials near 2^31 and 2^32-1} against an initial zone of SOA + 1..2 NS + 0..7 RRs; two thirds of the prerequisite RRs of later messages are re-aimed at a name/RRset that an earlier message's update section touched; ~7 % of the RRs carry one off-table edit (other class, TTL>0, RDATA against the row, AXFR/ANY type); applied through signed request bytes -> Request::from_bytes -> ZoneHandler::update with an in-memory journal (history_real_path) and through verify_prerequisites/pre_scan/update_records (history_direct). Non-trivial = distinct history AND >= 2 messages AND some prerequisite names an RRset/name changed by an earlier accepted message AND at least one accept and one reject",
+        rule: "histories of 1..6 UPDATE messages (0..3 prerequisite RRs, 0..5 update RRs each) over 14 owner names (apex in two spellings, hosts, case variant, wildcard, child, delegation point and a name below it, 4 out-of-zone names) x class {zone, ANY, NONE, CH} x type {A, TXT, NS, CNAME, SOA, ANY, AXFR} x ttl {0, >0} x rdata {empty, 3 values per type; SOA serials near 2^31 and 2^32-1} against an initial zone of SOA + 1..2 NS + 0..7 RRs; two thirds of the prerequisite RRs of later messages are re-aimed at a name/RRset that an earlier message's update section touched; ~7 % of the RRs carry one off-table edit (other class, TTL>0, RDATA against the row, AXFR/ANY type); in half of the histories the empty RRset objects of the known finding empty-rrset-left-after-delete-rr stay in the implementation between messages (prerequisites on them must still read 'no such RRset'), in the other half the harness clears them; applied through signed request bytes -> Request::from_bytes -> ZoneHandler::update with an in-memory journal (history_real_path) and through verify_prerequisites/pre_scan/update_records (history_direct). Non-trivial = distinct history AND >= 2 messages AND some prerequisite names an RRset/name changed by an earlier accepted message AND at least one accept and one reject",
         assumptions: vec![
             "where RFC 2136 text and pseudocode disagree (SOA add with equal serial; last NS of a non-apex NS RRset) or RFC 1982 leaves a comparison undefined, either result is accepted",
             "class = zone add with empty RDATA (not a row of table 3.4.2.6) may be refused or added literally",
